@@ -5,6 +5,9 @@ use crate::log::Violation;
 use std::collections::BTreeMap;
 
 pub mod common;
+pub mod c02;
+pub mod c03;
+pub mod c04;
 pub mod c05;
 pub mod c06;
 pub mod c07;
@@ -94,7 +97,7 @@ pub trait Property: Sync + Send {
 }
 
 pub fn all() -> Vec<Box<dyn Property>> {
-    vec![Box::new(selfcheck::SelfCheck), Box::new(c18::C18), Box::new(c14::C14), Box::new(c15::C15), Box::new(c16::C16), Box::new(c08::C08), Box::new(c07::C07), Box::new(c06::C06), Box::new(c17::C17), Box::new(c05::C05)]
+    vec![Box::new(selfcheck::SelfCheck), Box::new(c18::C18), Box::new(c14::C14), Box::new(c15::C15), Box::new(c16::C16), Box::new(c08::C08), Box::new(c07::C07), Box::new(c06::C06), Box::new(c17::C17), Box::new(c05::C05), Box::new(c02::C02), Box::new(c04::C04), Box::new(c03::C03)]
 }
 
 pub fn by_id(id: &str) -> Option<Box<dyn Property>> {
